@@ -4,6 +4,7 @@ amounts taken from official.py; C08 checks on every run that the sentence occurs
 booklet.  This ties the A-ORACLE transcription to a source inside the repository for the amounts listed here; the others
 (brackets, standard deduction, capital-gain and AMT amounts: Form 1040 general instructions / Rev. Procs, not bundled - the bundled
 i1040gi.pdf is an empty file - and all 2021 amounts, no booklets bundled) stay transcriptions cited in official.py.
+The N.C. D-401 booklets are encrypted against editing (standard handler revision 6, empty user password): pyvc/pdfcrypt.py.
 """
 from contracts import official as O
 
@@ -37,6 +38,27 @@ def sources():
                     f'generally limited to {usd(s["Single"])} ({usd(s["MarriedFilingSeparately"])} if married filing separately)'))
         out.append((y, 'Schedule B filing threshold (Schedule B instructions)', 'i1040sb.pdf',
                     f'You had over {usd(O.SCHED_B_THRESHOLD)} of taxable interest or ordinary dividends.'))
+    for y in (2022, 2023):
+        r = O.NC_RATE[y]
+        pct = f'{float(r * 100):.2f}%'
+        out.append((y, 'N.C. individual income tax rate (D-401 instructions)', 'nc_d-401.pdf',
+                    f'For tax year {y}, the individual income tax rate is {pct}. To calculate your North Carolina tax liability, multiply your North Carolina taxable income by {pct} ({float(r):.4f}).'))
+        st = O.NC_STD[y]
+        out.append((y, 'N.C. standard deduction chart (D-401 instructions): single', 'nc_d-401.pdf', f'Your standard deduction is: Single $ {int(st["Single"]):,}'))
+        out.append((y, 'N.C. standard deduction chart (D-401 instructions): joint and surviving spouse', 'nc_d-401.pdf', f'Surviving spouse $ {int(st["MarriedFilingJointly"]):,} Married filing separately If spouse does not claim itemized deductions $ {int(st["MarriedFilingSeparately"]):,}'))
+        out.append((y, 'N.C. standard deduction chart (D-401 instructions): head of household', 'nc_d-401.pdf', f'Head of household $ {int(st["HeadOfHousehold"]):,} N.C. Standard Deduction Chart'))
+
+        def rows(tab):
+            parts, lo = [], None
+            for hi, amt in tab:
+                parts.append((f'Up to {usd(hi)}' if lo is None else f'Over {usd(lo)} - Up to {usd(hi)}') + f' {usd(amt)}')
+                lo = hi
+            parts.append(f'Over {usd(lo)} $0')
+            return ' '.join(parts)
+        nc = O.NC_CHILD[y]
+        assert nc['Single'] == nc['MarriedFilingSeparately']
+        out.append((y, 'N.C. child deduction table (D-401 instructions)', 'nc_d-401.pdf',
+                    'Surviving Spouse ' + rows(nc['MarriedFilingJointly']) + ' Head of Household ' + rows(nc['HeadOfHousehold']) + ' Single/Married Filing Separately ' + rows(nc['Single']) + ' Child Deduction Worksheet'))
     out.append((2022, 'child tax credit per child (Schedule 8812 instructions)', 'i1040s8.pdf',
                 f'the initial amount of the CTC is {usd(O.CTC_PER_CHILD[2022])} for each qualifying child'))
     return out
